@@ -7,14 +7,14 @@ Local Open Scope nat_scope.
 
 Lemma conforms_sig v : conforms sigSchema v = true -> exists raw r s, v = VStruct raw [VInt r; VInt s].
 Proof.
-  unfold sigSchema. destruct v as [| | | | |raw vs|]; cbn [conforms]; try discriminate.
+  unfold sigSchema. destruct v as [| | | | |raw vs| | | | | |]; cbn [conforms]; try discriminate.
   destruct vs as [|[] [|[] [|]]]; cbn; try discriminate; intros _; eauto 8.
 Qed.
 
 Lemma conforms_cipher v : conforms cipherSchema v = true ->
   exists raw x y h c, v = VStruct raw [VInt x; VInt y; VBytes h; VBytes c].
 Proof.
-  unfold cipherSchema. destruct v as [| | | | |raw vs|]; cbn [conforms]; try discriminate.
+  unfold cipherSchema. destruct v as [| | | | |raw vs| | | | | |]; cbn [conforms]; try discriminate.
   destruct vs as [|[] [|[] [|[] [|[] [|]]]]]; cbn; try discriminate; intros _; eauto 8.
 Qed.
 
@@ -44,7 +44,7 @@ Theorem asn1_cost b :
   (forall v rest st, Unmarshal certOuterSchema noParams b = Ok (v, rest, st) -> (st <= 12)%N).
 Proof.
   repeat split; intros v rest st E.
-  - pose proof (Unmarshal_total sigSchema noParams b) as U. rewrite E in U. destruct U as (U & _). exact U.
-  - pose proof (Unmarshal_total cipherSchema noParams b) as U. rewrite E in U. destruct U as (U & _). exact U.
-  - pose proof (Unmarshal_total certOuterSchema noParams b) as U. rewrite E in U. destruct U as (U & _). exact U.
+  - exact (Unmarshal_cost_noslice sigSchema noParams b v rest st eq_refl E).
+  - exact (Unmarshal_cost_noslice cipherSchema noParams b v rest st eq_refl E).
+  - exact (Unmarshal_cost_noslice certOuterSchema noParams b v rest st eq_refl E).
 Qed.
